@@ -96,7 +96,7 @@ def hashseed_for(seed):
     return (seed * 2654435761 + 12345) % (1 << 32)
 
 
-def run_job(job, scratch, timeout=180, hashseed=None):
+def run_job(job, scratch, timeout=400, hashseed=None):
     """Execute one literal history in a fresh worker process."""
     job = dict(job)
     job['scratch'] = scratch.worker_dir()
